@@ -17,7 +17,7 @@ def main():
     for prop in sys.argv[1:]:
         wt = "/tmp/ben_" + prop
         runseeds.sh("git checkout -q -- .", cwd=wt)
-        for d in sorted(glob.glob(wt + "/seeds/[buv][0-9]*")):
+        for d in sorted(glob.glob(wt + "/seeds/[buvw][0-9]*")):
             bi = os.path.basename(d)
             sid = "%s-%s" % (prop, bi)
             dst = "/verif/benign/" + sid
